@@ -90,6 +90,11 @@ Definition encode_structural (su cb : bool) (h : heap) : hres :=
 Definition ub_tail (ub : bool) (h : heap) : hres :=
   if ub then encode_structural true true h else HOk h.
 
+(* self.update_bipartitions(suppress_unifurcations=su), when requested: prune_subtree,
+   filter_leaf_nodes and prune_leaves_without_taxa forward their own flag (repo commit d84aee8a) *)
+Definition ub_tail_su (ub su : bool) (h : heap) : hres :=
+  if ub then encode_structural su true h else HOk h.
+
 (* ---------- reseed_at and the re-rooting family ---------- *)
 
 (* edges_to_invert: x, parent x, ... as long as the node has a parent *)
@@ -370,7 +375,7 @@ Definition prune_subtree (node : Z) (ub su : bool) (h : heap) : hres :=
   | Some p =>
     hdo h1 <- remove_child_plain p node h ;;
     hdo h2 <- (if su then suppress_unifurcations h1 else HOk h1) ;;
-    ub_tail ub h2
+    ub_tail_su ub su h2
   end.
 
 (* nd.edge.tail_node.remove_child(nd); `none_err` is what a missing parent produces *)
@@ -400,7 +405,7 @@ Fixpoint leaf_prune_loop (fuel : nat) (bad : heap -> Z -> bool) (none_err : err)
 Definition filter_leaf_nodes (keep : list Z) (recursive ub su : bool) (h : heap) : hres :=
   hdo h1 <- leaf_prune_loop (fuel_of h) (fun _ nd => negb (memz nd keep)) OtherErr recursive h ;;
   hdo h2 <- (if su then suppress_unifurcations h1 else HOk h1) ;;
-  ub_tail ub h2.
+  ub_tail_su ub su h2.
 
 (* prune_leaves_without_taxa: a parentless leaf gives AttributeError (None.remove_child) *)
 Definition prune_leaves_without_taxa (recursive ub su : bool) (h : heap) : hres :=
@@ -408,7 +413,7 @@ Definition prune_leaves_without_taxa (recursive ub su : bool) (h : heap) : hres 
               (fun h nd => match taxon h nd with None => true | Some _ => false end)
               AttrErr recursive h ;;
   hdo h2 <- (if su then suppress_unifurcations h1 else HOk h1) ;;
-  ub_tail ub h2.
+  ub_tail_su ub su h2.
 
 (* prune_nodes(nodes, prune_leaves_without_taxa): "raise Exception" for a parentless node *)
 Definition prune_nodes (nodes : list Z) (plwt ub su : bool) (h : heap) : hres :=
